@@ -163,6 +163,17 @@ func (s *Server) Close() {
 	}
 }
 
+// CloseConn closes the (first) connection in an orderly way; the listener stays, and refuses whoever dials again
+// ("second connection refused" in the event log).
+func (s *Server) CloseConn() {
+	s.mu.Lock()
+	c := s.conn
+	s.mu.Unlock()
+	if c != nil {
+		c.Close()
+	}
+}
+
 func (s *Server) Events() []Event {
 	s.mu.Lock()
 	defer s.mu.Unlock()
